@@ -351,7 +351,22 @@ def all_orders(rec, spec):
 
 # ordinary cells whose functions are context-sensitive (IFERROR / IFNA / IFS
 # over a range), read by a CSE block, by plain formulas and by each other
+_THIS_ROW = '=Orders[[#This Row],[price]]*Orders[[#This Row],[qty]]'
 FIXED_ORDER_SPECS = [
+    # an Excel table with a calculated column: the same formula text in every
+    # row, meaning another cell in each (structured references)
+    dict(sheets={wbspec.INSHEET: {'B3': 1},
+                 'S': {'A1': 'item', 'B1': 'price', 'C1': 'qty', 'D1': 'total',
+                       'A2': 'a', 'B2': 10, 'C2': 2, 'A3': 'b', 'B3': 100,
+                       'C3': 3, 'A4': 'c', 'B4': 1000, 'C4': 5,
+                       'D2': _THIS_ROW, 'D3': _THIS_ROW, 'D4': _THIS_ROW,
+                       'F1': '=SUM(D2:D4)', 'F2': '=SUM(Orders[total])',
+                       'F3': '=SUM(Orders[price])+MAX(Orders[[qty]:[total]])'}},
+         tables=[dict(sheet='S', name='Orders', ref='A1:D4')],
+         arrays=[], names={}, active='S',
+         inputs=['S!B2', 'S!C2', 'S!B3', 'S!C3', 'S!B4', 'S!C4'],
+         formulas=['S!D2', 'S!D3', 'S!D4', 'S!F1', 'S!F2', 'S!F3'],
+         ranges=['S!D2:D4', 'S!B2:D4']),
     dict(sheets={wbspec.INSHEET: {'B3': 1},
                  'S': {'A1': 1, 'A2': 2, 'A3': 3,
                        'B1': '=IFERROR(A1:A3,9)', 'B2': '=IFNA(A1:A3,7)',
